@@ -24,7 +24,7 @@ OctalGap == { [Xfer(0, "uusdc", 12, FwINT("U"), <<FeeAct(<<Fix(2, "ORB")>>)>>) E
               [Xfer(0, "ustake", 17, FwINT("U"), <<FeeAct(<<Fix(2, "ORB")>>)>>) EXCEPT !.amtc = "LEADZERO"] }
 MCAlphabet == Grid \cup OctalGap
 SmallAlphabet == Grid
-StepProps == [][ Prop_C16(last') /\ Prop_C01(last') /\ Prop_C02(last') /\ Prop_C12(last') ]_vars
+StepProps == [][ Prop_C16(last') /\ Prop_C01(last') /\ MC_C02(last') /\ Prop_C12(last') ]_vars
 Depth == TLCGet("level") <= MaxDepth
 View == st
 =============================================================================
